@@ -30,13 +30,15 @@ POSTCONDITION TraceAccepted
 
 
 def run_sim(ctx, name, stakes, byz=(), byz_mode="silent", crashed=(), crash_at=0, seed=1, gst=0,
-            chaos=1500, drop=0, dup=0, delta=80, run_ms=9000, stake_scale=0):
+            chaos=1500, drop=0, dup=0, delta=80, run_ms=9000, stake_scale=0, standstill=0):
     out = os.path.join(ctx.work, f"{name}.ndjson")
     args = ["sim", "--stakes", ",".join(map(str, stakes)), "--seed", seed, "--run", run_ms,
             "--gst", gst, "--chaos", chaos, "--drop", drop, "--dup", dup, "--delta", delta,
             "--crash-at", crash_at, "--out", out, "--byz-mode", byz_mode]
     if stake_scale:
         args += ["--stake-scale", stake_scale]
+    if standstill:
+        args += ["--standstill", standstill]
     if byz:
         args += ["--byz", ",".join(map(str, byz))]
     if crashed:
@@ -48,6 +50,8 @@ def run_sim(ctx, name, stakes, byz=(), byz_mode="silent", crashed=(), crash_at=0
 def validate(ctx, name, trace, stakes, byz, module="Trace_Abs", invs=TRACE_INVS, extra_defs="",
              extra_consts="", timeout=900):
     """Returns None if accepted, else a dict describing the rejection."""
+    from . import nodetrace as _nt
+    trace = _nt.abs_view(trace)     # the system-level view of the log
     n_events = sum(1 for _ in open(trace))
     max_slot = 8
     with open(trace) as f:
